@@ -46,6 +46,11 @@ func main() {
 		fmt.Printf("%d files, %d yield points\n", res.Files, res.Points)
 		return
 	}
+	if len(os.Args) >= 4 && os.Args[1] == "C14sig" {
+		ver, _ := strconv.Atoi(os.Args[2])
+		mon.C14Sig(ver, os.Args[3])
+		return
+	}
 	if len(os.Args) >= 5 && os.Args[1] == "C14child" {
 		seed, _ := strconv.ParseInt(os.Args[3], 10, 64)
 		mon.C14Child(os.Args[4], os.Args[2], seed)
